@@ -247,6 +247,7 @@ func main() {
 	kindVar := map[string]string{} // FROM kind -> variable rebound to the alias
 	var engineKinds []string
 	envTable := map[string][]string{} // variable -> accessor keys
+	envBind := map[string][][3]string{}
 	var envOrder []string
 	var topKeys []string // literal top-level keys of the env (not alias-bound)
 	sawSwitch, sawEnv := false, false
@@ -279,6 +280,22 @@ func main() {
 										die("query.go:%d: accessor key is not a literal", fset.Position(kv2.Pos()).Line)
 									}
 									accs = append(accs, a)
+									// binding: proxyenv.Method (a bound method value) or a string constant
+									switch v := kv2.Value.(type) {
+									case *ast.SelectorExpr:
+										if x, ok := v.X.(*ast.Ident); !ok || x.Name != "proxyenv" {
+											die("query.go:%d: accessor %s is not bound to a proxyenv method", fset.Position(kv2.Pos()).Line, a)
+										}
+										envBind[k.Name] = append(envBind[k.Name], [3]string{a, "method", v.Sel.Name})
+									case *ast.BasicLit:
+										c, ok := strLit(v)
+										if !ok {
+											die("query.go:%d: accessor %s bound to a non-string literal", fset.Position(kv2.Pos()).Line, a)
+										}
+										envBind[k.Name] = append(envBind[k.Name], [3]string{a, "const", c})
+									default:
+										die("query.go:%d: accessor %s: unrecognised binding shape", fset.Position(kv2.Pos()).Line, a)
+									}
 								}
 								if _, dup := envTable[k.Name]; dup {
 									die("query.go:%d: env key %s bound twice", fset.Position(kv.Pos()).Line, k.Name)
@@ -340,6 +357,51 @@ func main() {
 	}
 	sort.Strings(topKeys)
 
+	// Env methods: `func (env *Env) M() T { return env.Node.<path> }`
+	type envMethod struct{ name, path string }
+	var envMethods []envMethod
+	for _, d := range qf.Decls {
+		fd, ok := d.(*ast.FuncDecl)
+		if !ok || fd.Recv == nil || len(fd.Recv.List) != 1 {
+			continue
+		}
+		if exprString(fset, fd.Recv.List[0].Type, qsrc) != "*Env" {
+			continue
+		}
+		body := fd.Body.List
+		path := ""
+		switch {
+		case len(body) == 1:
+			if r, ok := body[0].(*ast.ReturnStmt); ok && len(r.Results) == 1 {
+				t := exprString(fset, r.Results[0], qsrc)
+				if strings.HasPrefix(t, "env.Node.") {
+					path = strings.TrimPrefix(t, "env.Node.")
+				} else if strings.HasPrefix(t, "fmt.Sprintf(") && fd.Name.Name == "ToString" {
+					path = "<ToString>"
+				}
+			}
+		case fd.Name.Name == "GetDoc" && len(body) == 2:
+			// if env.Node.JavaDoc == nil { return &model.Javadoc{} }; return env.Node.JavaDoc
+			raw := string(qsrc[fset.Position(fd.Body.Pos()).Offset:fset.Position(fd.Body.End()).Offset])
+			var kept []string
+			for _, ln := range strings.Split(raw, "\n") {
+				if i := strings.Index(ln, "//"); i >= 0 {
+					ln = ln[:i]
+				}
+				kept = append(kept, ln)
+			}
+			norm := strings.Join(strings.Fields(strings.Join(kept, " ")), " ")
+			if strings.Contains(norm, "if env.Node.JavaDoc == nil {") && strings.Contains(norm, "return &model.Javadoc{} }") &&
+				strings.HasSuffix(norm, "return env.Node.JavaDoc }") && !strings.Contains(norm, "env.Node.JavaDoc = ") {
+				path = "<JavaDocOrEmpty>"
+			}
+		}
+		if path == "" {
+			die("query.go:%d: Env method %s has an unrecognised body", fset.Position(fd.Pos()).Line, fd.Name.Name)
+		}
+		envMethods = append(envMethods, envMethod{fd.Name.Name, path})
+	}
+
 	// ---------------- emit ----------------
 	var b strings.Builder
 	b.WriteString("(* GENERATED by /verif/translator from /repo/sourcecode-parser/graph/{construct,query}.go — do not edit *)\n")
@@ -382,7 +444,29 @@ func main() {
 		b.WriteString("(" + coqStr(v) + ", " + coqList(envTable[v]) + ")")
 	}
 	b.WriteString("].\n\n")
-	b.WriteString("Definition engine_top_keys : list bytes := " + coqList(topKeys) + ".\n")
+	b.WriteString("Definition engine_top_keys : list bytes := " + coqList(topKeys) + ".\n\n")
+	b.WriteString("(* env literal: variable -> (accessor, binding kind, Env method name | constant) *)\n")
+	b.WriteString("Definition engine_env_bind : list (bytes * list (bytes * bytes * bytes)) :=\n  [")
+	for i, v := range envOrder {
+		if i > 0 {
+			b.WriteString(";\n   ")
+		}
+		var q []string
+		for _, t := range envBind[v] {
+			q = append(q, "("+coqStr(t[0])+", "+coqStr(t[1])+", "+coqStr(t[2])+")")
+		}
+		b.WriteString("(" + coqStr(v) + ", [" + strings.Join(q, "; ") + "])")
+	}
+	b.WriteString("].\n\n")
+	b.WriteString("(* methods of Env: name -> Node field path it returns *)\n")
+	b.WriteString("Definition engine_env_methods : list (bytes * bytes) :=\n  [")
+	for i, m := range envMethods {
+		if i > 0 {
+			b.WriteString(";\n   ")
+		}
+		b.WriteString("(" + coqStr(m.name) + ", " + coqStr(m.path) + ")")
+	}
+	b.WriteString("].\n")
 	if err := os.WriteFile(os.Args[2]+".tmp", []byte(b.String()), 0o644); err != nil {
 		die("%v", err)
 	}
